@@ -80,6 +80,13 @@ def scenarios(draw):
         next(h for h in handlers if h['id'] == 'c')['duration'] = 3.0
         o = draw(st.integers(0, 3))
         before += [{'a': 'create', 'obj': o, 'v': 1, 'dt': draw(st.sampled_from([0.1, 0.5]))}, {'a': 'edit_spec', 'obj': o, 'v': 2, 'dt': draw(st.sampled_from([0.1, 0.5, 1.0]))}]
+    if draw(st.integers(0, 3)) == 0:
+        # a limited number of workers, more busy objects than that, and a stop while they are busy: workers that never got a slot
+        # are still queued when the watcher exits
+        spec['settings']['queueing.worker_limit'] = draw(st.sampled_from([1, 1, 2]))
+        spec['settings']['queueing.exit_timeout'] = draw(st.sampled_from([0.5, 2.0]))
+        next(h for h in handlers if h['id'] == 'c')['duration'] = draw(st.sampled_from([3.0, 6.0]))
+        before += [{'a': 'create', 'obj': i, 'v': 1, 'dt': 0.0} for i in range(4)] + [{'a': 'advance', 'dt': draw(st.sampled_from([0.1, 0.5, 1.0]))}]
     trigger = draw(st.sampled_from(['stop', 'stop', 'cancel', 'crd-stream-error', 'served-stream-error', 'none']))
     if stopping_family:
         trigger = draw(st.sampled_from(['stop', 'stop', 'stop', 'cancel', 'crd-stream-error']))
@@ -275,6 +282,8 @@ def check(run, res, bound):
             res.label('trigger-with-daemon-and-handler-in-flight')
         if during_startup:
             res.label('trigger-during-startup')
+        if spec['settings'].get('queueing.worker_limit'):
+            res.label('trigger-with-a-worker-limit')
         if any(x['kind'] == 'daemon' and x.get('flag_set_at') is not None and x['flag_set_at'] < t_trig - TOL and (x['t1'] is None or x['t1'] >= t_trig)
                for x in calls):
             res.label('trigger-while-a-daemon-is-being-stopped')
